@@ -45,6 +45,22 @@ Case strip_env_faults(const Case& c) {
   return o;
 }
 
+bool Outcome::fail(const std::string& c, const std::string& d) {
+  bool own = G.own_prefix.empty() || c.rfind(G.own_prefix, 0) == 0 || c.rfind("MACHINERY", 0) == 0;
+  // a clause after which the rest of the operation's oracle cannot be evaluated (the call itself failed)
+  bool blocking = c.find("failed") != std::string::npos || c.find("rejected") != std::string::npos || c.find("refused") != std::string::npos ||
+                  c.find("despite") != std::string::npos || c.find("size_query_zero") != std::string::npos;
+  if (!own) {
+    foreign.push_back(c);
+    return blocking;
+  }
+  if (clause.empty()) {
+    clause = c;
+    detail = d;
+  }
+  return true;
+}
+
 // ------------------------------------------------------------------ explicit inputs
 static void setbit_be(bytes& b, int i) { b[i >> 3] |= (uint8_t)(1u << (7 - (i & 7))); }
 model::Key key_from_case(const Case& c, const model::Params& p) {
